@@ -291,6 +291,7 @@ def s_case(draw, max_len=5):
                     'unit': draw(G.s_unit('Torque'))}
     case['init'] = {'pos': G.qty('AngularPosition', draw(st.floats(-50, 50)), draw(G.s_unit('AngularPosition'))),
                     'speed': G.qty('AngularSpeed', mdl.noload_out * draw(st.floats(-0.5, 1.5)), draw(G.s_unit('AngularSpeed')))}
+    G.add_variants(draw, case)
     case['kdt0'] = draw(st.floats(0.05, 0.2))
     case['n0'] = max(4, int(draw(st.floats(3, 6)) / case['kdt0']))
     case['dt_unit'] = draw(G.s_unit('TimeInterval'))
